@@ -65,7 +65,7 @@ fn choices() -> impl Strategy<Value = Choices> {
         })
 }
 
-const INNERS: [Inner; 18] = [
+const INNERS: [Inner; 19] = [
     Inner::Str,
     Inner::Int(IntTy::U8),
     Inner::Int(IntTy::U16),
@@ -84,6 +84,7 @@ const INNERS: [Inner; 18] = [
     Inner::VecI32,
     Inner::Point,
     Inner::CowF32,
+    Inner::VecU8,
 ];
 
 fn int_bound(t: IntTy, pos: &Index, spell: &Index, lower: bool) -> Bound {
@@ -179,6 +180,11 @@ fn build(c: &Choices) -> Decl {
                 d.sans = vec![SanSpec::With(FnRef::new(["s_abs", "s_swap"][c.san[1].index(2)], form(0)))];
             }
         }
+        Inner::VecU8 => {
+            if c.san[0].index(2) == 0 {
+                d.sans = vec![SanSpec::With(FnRef::new(["s_sort", "s_take3", "s_push0"][c.san[1].index(3)], form(0)))];
+            }
+        }
         Inner::CowF32 => {
             if c.san[0].index(2) == 0 {
                 d.sans = vec![SanSpec::With(FnRef::new(["s_abs_all", "s_take3", "s_push0"][c.san[1].index(3)], form(0)))];
@@ -197,7 +203,7 @@ fn build(c: &Choices) -> Decl {
                 Inner::Int(_) | Inner::F32 | Inner::F64 => "v_small",
                 Inner::VecI32 => "v_sum",
                 Inner::Point => "v_far",
-                Inner::CowF32 => "v_sum",
+                Inner::CowF32 | Inner::VecU8 => "v_sum",
             },
             FnForm::Path,
         ));
@@ -245,6 +251,7 @@ fn build(c: &Choices) -> Decl {
             }
             Inner::VecI32 => pool.push(ValSpec::Predicate(FnRef::new(["p_nonempty", "p_short"][c.val_kinds[2].index(2)], pform(0)))),
             Inner::Point => pool.push(ValSpec::Predicate(FnRef::new(["p_xpos", "p_diag"][c.val_kinds[2].index(2)], pform(0)))),
+            Inner::VecU8 => pool.push(ValSpec::Predicate(FnRef::new(["p_nonempty", "p_short", "p_utf8"][c.val_kinds[2].index(3)], pform(0)))),
             Inner::CowF32 => pool.push(ValSpec::Predicate(FnRef::new(["p_nonempty", "p_short", "p_no_nan"][c.val_kinds[2].index(3)], pform(0)))),
         }
         // random subset in random order
@@ -315,6 +322,7 @@ fn build(c: &Choices) -> Decl {
                 Inner::Str => [("\"ab@c\"", "maybe"), ("\"  Ab \"", "needs-sanitising"), ("\"\"", "maybe-invalid")][k - 1],
                 Inner::VecI32 => [("vec![2, 1]", "maybe"), ("Vec::new()", "maybe-invalid"), ("vec![7; 5]", "maybe")][k - 1],
                 Inner::Point => [("Point { x: 3, y: -4 }", "maybe"), ("Point { x: -3, y: -3 }", "maybe-invalid"), ("Point::default()", "expr")][k - 1],
+                Inner::VecU8 => [("vec![2, 1]", "maybe"), ("Vec::new()", "maybe-invalid"), ("vec![7; 5]", "maybe")][k - 1],
                 Inner::CowF32 => [("Cow::Borrowed(&[2.0, -1.0])", "maybe"), ("Cow::Owned(Vec::new())", "maybe-invalid"), ("Cow::Owned(vec![7.0; 5])", "maybe")][k - 1],
             };
             d.default = Some(DefaultSpec { macro_text: m.into(), neutral_text: m.into(), class: class.into() });
@@ -380,7 +388,7 @@ fn build(c: &Choices) -> Decl {
     d.layout = Layout { order: order.into_iter().map(|i| blocks[i]).collect(), trailing_comma_outer: c.commas.0, trailing_comma_inner: c.commas.1 };
     d.new_unchecked = c.derive_bits & (1 << 31) != 0;
     // const_fn on numeric / Point declarations: custom functions must then be `const fn` paths
-    if c.derive_bits & (1 << 30) != 0 && c.derive_bits & (1 << 29) != 0 && !matches!(inner, Inner::Str | Inner::VecI32 | Inner::CowF32) && d.generic == Generic::None {
+    if c.derive_bits & (1 << 30) != 0 && c.derive_bits & (1 << 29) != 0 && !matches!(inner, Inner::Str | Inner::VecI32 | Inner::CowF32 | Inner::VecU8) && d.generic == Generic::None {
         let const_ok = |fr: &FnRef| match inner {
             Inner::Int(_) => matches!(fr.name.as_str(), "s_clamp" | "s_wadd1" | "p_even" | "v_small"),
             Inner::F32 | Inner::F64 => matches!(fr.name.as_str(), "s_clamp" | "p_not50"),
